@@ -37,11 +37,11 @@ meta = json.load(open(os.path.join(m, "meta.json")))
 rec = {"confirmed_at": time.strftime("%Y-%m-%d %H:%M:%S"), "steps": []}
 ok, msg = build_and_test()
 rec["steps"].append({"with_change_build_and_19_tests": ok, "detail": msg[-200:]})
-rc1, out1 = sh("sh %s/demo.sh" % m, cwd=m)
+rc1, out1 = sh("bash %s/demo.sh" % m, cwd=m)
 rec["steps"].append({"demo_with_change_exit": rc1, "tail": out1[-300:]})
 sh("git apply -R %s" % patch, cwd=wt)   # (git stash is shared between worktrees: never use it here)
 ok2, msg2 = build_and_test()
-rc0, out0 = sh("sh %s/demo.sh" % m, cwd=m)
+rc0, out0 = sh("bash %s/demo.sh" % m, cwd=m)
 rec["steps"].append({"without_change_build_and_tests": ok2, "demo_without_change_exit": rc0, "tail": out0[-200:]})
 sh("git apply %s" % patch, cwd=wt)
 confirmed = ok and ok2 and rc1 != 0 and rc0 == 0
